@@ -18,6 +18,14 @@ FUNCTIONAL = {}
 
 def static_obligations(pid):
     """(obligations, discharged, broken notes) beyond the Coq theorems, e.g. source scans"""
+    if pid == "C15":
+        import subprocess
+        verif = os.path.dirname(os.path.dirname(os.path.abspath(__file__)))
+        r = subprocess.run(["python3", os.path.join(verif, "tools", "hash_iter_scan.py")], stdout=subprocess.PIPE, text=True)
+        if r.returncode == 0:
+            return 1, 1, []
+        return 1, 0, ["hash-iteration scan: the Rust source iterates a HashMap/HashSet at a site the model does not "
+                      "treat as order-independent: " + r.stdout[:600]]
     return 0, 0, []
 
 
@@ -36,8 +44,47 @@ def features(pid, case, ji):
     return f
 
 
+def _has(case, *keys):
+    if case.raw_yaml is not None:
+        return True
+    t = json.dumps(case.doc)
+    return any(('"%s"' % k) in t for k in keys)
+
+
+NONTRIVIAL = {
+    "C01": lambda c, j: props.outcome(j)[0] == "ok" and j["gen"]["ok"]["main"]["script"].count("(") >= 6,
+    "C02": lambda c, j: props.outcome(j)[0] == "ok" and j["gen"]["ok"]["main"]["script"].count("(") >= 6,
+    "C03": lambda c, j: props.outcome(j)[0] == "ok" and _has(c, "fixed_vram", "fixed_symbol", "follows_segment", "vram_class"),
+    "C04": lambda c, j: props.outcome(j)[0] == "ok" and len(c.doc.get("segments", [])) >= 2,
+    "C05": lambda c, j: props.outcome(j)[0] == "ok",
+    "C06": lambda c, j: props.outcome(j)[0] == "ok" and _has(c, "include_if_any", "include_if_all", "exclude_if_any", "exclude_if_all"),
+    "C07": lambda c, j: "{" in json.dumps(c.doc) if c.raw_yaml is None else False,
+    "C08": lambda c, j: props.outcome(j)[0] != "parse" and _has(c, "subalign", "fill_value", "alloc_sections", "section_start_align", "sections_subgroups", "wildcard_sections"),
+    "C09": lambda c, j: props.outcome(j)[0] == "ok" and _has(c, "subalign", "segment_start_align", "segment_end_align", "section_start_align", "section_end_align", "sections_start_alignment", "sections_end_alignment"),
+    "C10": lambda c, j: props.outcome(j)[0] == "ok" and _has(c, "vram_class"),
+    "C11": lambda c, j: props.outcome(j)[0] == "ok" and c.partial,
+    "C12": lambda c, j: props.outcome(j)[0] == "ok" and _has(c, "d_path"),
+    "C13": lambda c, j: props.outcome(j)[0] == "ok",
+    "C14": lambda c, j: props.outcome(j)[0] == "ok" and _has(c, "keep_sections"),
+    "C15": lambda c, j: props.outcome(j)[0] == "ok",
+    "C16": lambda c, j: True,
+    "C17": lambda c, j: props.outcome(j)[0] == "ok" and _has(c, "entry", "symbol_assignments", "required_symbols", "asserts", "gp_info", "hardcoded_gp_value"),
+    "C18": lambda c, j: props.outcome(j)[0] == "ok" and _has(c, "sections_allowlist", "sections_allowlist_extra", "sections_denylist", "discard_wildcard_section"),
+    "C19": lambda c, j: True,
+    "C20": lambda c, j: props.outcome(j)[0] == "ok",
+}
+RULES.update({
+    "C16": DEFAULT_RULE + "; C16: every case counts, distinct = distinct (outcome, parsed document)",
+    "C19": DEFAULT_RULE + "; C19: every case counts, distinct = distinct outcome (tag of success / error value / crash) "
+           "and, for the hostile byte stream, its mutation kind",
+})
+
+
 def nontrivial(pid, case, ji):
-    return props.outcome(ji)[0] == "ok"
+    try:
+        return bool(NONTRIVIAL.get(pid, lambda c, j: props.outcome(j)[0] == "ok")(case, ji))
+    except Exception:
+        return False
 
 
 def known_class(pid, case, ji, known):
@@ -72,6 +119,9 @@ def link_cases(pid, seed, n):
     try:
         prof = dict(props.PROFILES.get(pid, {}))
         prof.update(ldcorr.LINK_PROFILE)
+        if pid == "C11":
+            prof["partial"] = 1.0
+            prof["single"] = 0.0
         for i in range(n):
             rnd = random.Random((seed * 7919 + i) * 37 + int(pid[1:]))
             g = gen.Gen(rnd, prof)
@@ -83,9 +133,325 @@ def link_cases(pid, seed, n):
     return out
 
 
+def prune_excluded(doc, opts):
+    """the document with every excluded entry deleted (None when deleting would leave a list that the
+    parser rejects as empty, or in the known-finding class KF-C06-single-segment)"""
+    import copy
+    from . import docsem
+    d = copy.deepcopy(doc)
+    st = d.get("settings") or {}
+    single = isinstance(st, dict) and st.get("single_segment_mode")
+    changed = [False]
+
+    def inc(rec):
+        return docsem.included({k: rec.get(k) for k in ("include_if_any", "include_if_all", "exclude_if_any",
+                                                         "exclude_if_all")}, opts)
+
+    def prune_files(l):
+        out = []
+        for f in l:
+            if not inc(f):
+                changed[0] = True
+                continue
+            if isinstance(f.get("files"), list):
+                f["files"] = prune_files(f["files"])
+            out.append(f)
+        return out
+    segs = []
+    for s in d["segments"]:
+        if not single and not inc(s):
+            changed[0] = True
+            continue
+        s["files"] = prune_files(s["files"])
+        if not s["files"]:
+            return None
+        gp = s.get("gp_info")
+        if isinstance(gp, dict) and not inc(gp):
+            del s["gp_info"]
+            changed[0] = True
+        segs.append(s)
+    if not segs:
+        return None
+    d["segments"] = segs
+    for key in ("symbol_assignments", "required_symbols", "asserts"):
+        if isinstance(d.get(key), list):
+            n = len(d[key])
+            d[key] = [a for a in d[key] if inc(a)]
+            if len(d[key]) != n:
+                changed[0] = True
+    return d if changed[0] else None
+
+
+def _all_outputs(ji, files):
+    """every output, blank lines stripped"""
+    g = ji.get("gen", {}).get("ok") if isinstance(ji.get("gen"), dict) else None
+    if not g:
+        return props.outcome(ji)
+    def w(x):
+        return [[l for l in x["script"].split("\n") if l], x["paths"], x["symbols"], x["header"], x["deps"]]
+    out = [w(g["main"]), [[n, w(x)] for n, x in g.get("subs", [])]]
+    if files and "files" in g:
+        out.append(g["files"])
+    return out
+
+
+def hostile_cases(seed, n):
+    """raw byte inputs: corrupted, truncated, wrongly typed, deeply nested, aliased, non-ASCII YAML"""
+    import random
+    from . import gen, enc
+    out = []
+    for i in range(n):
+        rnd = random.Random(seed * 104729 + i)
+        g = gen.Gen(rnd, {"max_segments": 3, "max_files": 3})
+        doc, opts, ev, partial = g.case_parts()
+        text = json.dumps(doc, ensure_ascii=False)
+        kind = rnd.choice(["truncate", "flip", "type-swap", "deep", "alias", "nonascii", "huge", "tabs", "dupkey",
+                           "cycle", "empty", "binary"])
+        b = text.encode("utf-8")
+        if kind == "truncate":
+            b = b[: rnd.randrange(1, len(b))]
+        elif kind == "flip":
+            ba = bytearray(b)
+            for _ in range(rnd.randint(1, 6)):
+                ba[rnd.randrange(len(ba))] = rnd.choice(b"{}[],:\"'#&*!|>%@`-? \n\t\x00\xff0a")
+            b = bytes(ba)
+        elif kind == "type-swap":
+            rep = rnd.choice([("\"name\":", "\"name\": [1,2],\"x\":"), ("\"files\": [", "\"files\": {\"a\":["), ("true", "\"yes\""),
+                              ("\"path\": \"", "\"path\": 12, \"p\": \""), ("[", "[[")])
+            b = text.replace(rep[0], rep[1], rnd.randint(1, 3)).encode("utf-8")
+        elif kind == "deep":
+            d = rnd.choice([50, 200, 2000])
+            txt = '{"path": "a.o"}'
+            for _ in range(d):
+                txt = '{"kind": "group", "files": [' + txt + ']}'
+            b = ('{"segments": [{"name": "s", "files": [' + txt + ']}]}').encode()
+        elif kind == "alias":
+            b = ("a: &a [x, x]\nb: &b [*a, *a, *a, *a, *a, *a, *a, *a]\nc: &c [*b, *b, *b, *b, *b, *b, *b, *b]\n"
+                 "d: &d [*c, *c, *c, *c, *c, *c, *c, *c]\nsegments:\n  - name: s\n    files: [{path: a.o, keep_sections: *d}]\n").encode()
+        elif kind == "nonascii":
+            name = rnd.choice(["\u00e9t\u00e9", ".\u00e9t\u00e9", "\u4e2d\u6587", ".\U0001F600x", "\u00df", "\u01c5x"])
+            doc2 = json.loads(text)
+            st = doc2.setdefault("settings", {}) if isinstance(doc2.get("settings", {}), dict) else {}
+            if isinstance(st, dict):
+                st["linker_symbols_style"] = rnd.choice(["makerom", "splat"])
+            for sgm in doc2.get("segments", []):
+                if isinstance(sgm, dict):
+                    if rnd.random() < 0.5:
+                        sgm["alloc_sections"] = [name, ".text"]
+                    if rnd.random() < 0.5:
+                        sgm["name"] = name
+            b = json.dumps(doc2, ensure_ascii=False).encode("utf-8")
+        elif kind == "huge":
+            b = text.replace("\"fixed_vram\": ", "\"fixed_vram\": 99999999999999999999", 1).replace(
+                "\"pad_amount\": ", "\"pad_amount\": -", 1).encode()
+        elif kind == "tabs":
+            b = ("segments:\n\t- name: a\n\t  files: [{path: a.o}]\n" if rnd.random() < 0.5 else
+                 "segments:\n  - name: a\n    files:\n    - {path: a.o\n").encode()
+        elif kind == "dupkey":
+            b = text.replace("{\"name\":", "{\"name\": \"dup\", \"name\":", 1).encode()
+        elif kind == "cycle":
+            doc2 = {"settings": {"sections_subgroups": {".text": [".data"], ".data": [".text"]}},
+                    "segments": [{"name": "s", "files": [{"path": "a.o", "section_order": {".text": ".data", ".data": ".text"}},
+                                                          {"kind": "group", "files": [{"path": "b.o"}]}]}]}
+            if rnd.random() < 0.5:
+                doc2["settings"]["single_segment_mode"] = True
+                doc2["segments"].append({"name": "t", "files": [{"path": "c.o"}]})
+            b = json.dumps(doc2).encode()
+        elif kind == "empty":
+            b = rnd.choice([b"", b"\n", b"---\n", b"null", b"[]", b"segments:", b"segments: []", b"? : :"])
+        elif kind == "binary":
+            b = bytes(rnd.randrange(256) for _ in range(rnd.randint(1, 200)))
+        out.append(run.Case("H%d" % i, None, opts, ev, partial, False, {"kind": kind}, raw_yaml=b))
+    return out
+
+
 def dynamic(pid, tier, seed, cases):
     """property-specific executed checks; link-level properties: real GNU ld + LdSem correspondence"""
     res = {"violations": [], "features": {}, "evaluations": 0}
+    if pid == "C06":
+        # metamorphic monitor on the implementation alone: deleting every excluded entry, or adding an option
+        # that nothing mentions, must not change any output (up to blank lines)
+        pairs = []
+        for c in cases:
+            if c.raw_yaml is not None or c.meta.get("malform") or not isinstance(c.doc, dict):
+                continue
+            try:
+                d2 = prune_excluded(c.doc, c.opts)
+            except Exception:
+                d2 = None
+            if d2 is not None:
+                pairs.append((c, run.Case(c.cid + "_pruned", d2, c.opts, c.emit_version, c.partial, c.files), "pruned"))
+            if len(pairs) % 3 == 0:
+                pairs.append((c, run.Case(c.cid + "_opt", c.doc, list(c.opts) + [("zz_unmentioned", "1")],
+                                          c.emit_version, c.partial, c.files), "extra-option"))
+        both = [p[0] for p in pairs] + [p[1] for p in pairs]
+        uniq = {}
+        for c in both:
+            uniq[c.cid] = c
+        impl = run.run_impl_only(list(uniq.values()))
+        for a, b, kind in pairs:
+            ja, jb = run.normalise(impl[a.cid]), run.normalise(impl[b.cid])
+            res["evaluations"] += 1
+            res["features"]["metamorphic:" + kind] = res["features"].get("metamorphic:" + kind, 0) + 1
+            if props.outcome(ja)[0] != "ok":
+                continue
+            if _all_outputs(ja, a.files) != _all_outputs(jb, b.files):
+                res["violations"].append({"case": a, "impl": None, "companion": b.to_json(),
+                                          "what": "outputs differ (beyond blank lines) from those of the document with "
+                                                  "its excluded entries deleted" if kind == "pruned" else
+                                                  "an option that no condition and no path mentions changed an output"})
+    if pid == "C08":
+        # metamorphic monitor on the implementation alone: writing every effective option value explicitly on
+        # every segment (null where the effective value is "none") changes no output; afterwards changing the
+        # global values changes nothing either (shielding); and writing the effective global values explicitly
+        # in `settings` changes nothing.
+        import copy
+        OVR = ["alloc_sections", "noload_sections", "subalign", "segment_start_align", "segment_end_align",
+               "section_start_align", "section_end_align", "sections_start_alignment", "sections_end_alignment",
+               "wildcard_sections", "fill_value", "sections_subgroups"]
+        base = [c for c in cases if c.raw_yaml is None and isinstance(c.doc, dict) and not c.meta.get("malform")]
+        base = base[: (500 if tier == "quick" else 8000)]
+        impl0 = run.run_impl_only(base)
+        comp = []
+        for c in base:
+            j0 = run.normalise(impl0[c.cid])
+            if "ok" not in j0.get("parse", {}):
+                continue
+            pd = j0["parse"]["ok"]
+            d1 = copy.deepcopy(c.doc)
+            for ss, ps in zip(d1["segments"], pd["segments"]):
+                for k in OVR:
+                    ss[k] = ps[k]
+            d2 = copy.deepcopy(d1)
+            st2 = d2.setdefault("settings", {})
+            if not isinstance(st2, dict):
+                continue
+            st2.update({"subalign": 0x400, "segment_start_align": 0x800, "fill_value": 0x12345678,
+                        "wildcard_sections": not pd["settings"]["wildcard_sections"],
+                        "alloc_sections": [".zzz"], "noload_sections": [".yyy"], "section_end_align": 0x200,
+                        "sections_start_alignment": {".text": 0x80}, "sections_subgroups": {".zzz": [".q"]}})
+            d3 = copy.deepcopy(c.doc)
+            st3 = d3.setdefault("settings", {})
+            if isinstance(st3, dict):
+                for k in OVR:
+                    st3[k] = pd["settings"][k]
+            comp.append((c, j0, [("segment-restated", d1), ("global-changed-under-overrides", d2), ("global-restated", d3)]))
+        extra = []
+        for c, j0, variants in comp:
+            for kind, d in variants:
+                extra.append(run.Case("%s_%s" % (c.cid, kind), d, c.opts, c.emit_version, c.partial, False))
+        impl1 = run.run_impl_only(extra)
+        for c, j0, variants in comp:
+            o0 = _all_outputs(j0, False)
+            for kind, d in variants:
+                j1 = run.normalise(impl1["%s_%s" % (c.cid, kind)])
+                res["evaluations"] += 1
+                res["features"]["metamorphic:" + kind] = res["features"].get("metamorphic:" + kind, 0) + 1
+                same_doc = kind != "global-changed-under-overrides"
+                bad = _all_outputs(j1, False) != o0
+                if not bad and same_doc and j1.get("parse", {}).get("ok") != j0["parse"]["ok"] and kind == "segment-restated":
+                    bad = True
+                if bad:
+                    res["violations"].append({"case": c, "impl": None, "companion": d,
+                                              "what": "outputs change when %s" % {
+                                                  "segment-restated": "every segment states its effective option values explicitly",
+                                                  "global-changed-under-overrides": "global values change although every segment overrides every option",
+                                                  "global-restated": "settings states the effective global values explicitly"}[kind]})
+                    break
+    if pid == "C11":
+        # on the implementation's own outputs: partial generation vs ordinary generation of the same document
+        from . import specmon
+        sub = [c for c in cases if c.partial and c.raw_yaml is None]
+        normal = [run.Case(c.cid + "_n", c.doc, c.opts, c.emit_version, False, False) for c in sub]
+        impl = run.run_impl_only(sub + normal)
+        for c, cn in zip(sub, normal):
+            jp, jn = run.normalise(impl[c.cid]), run.normalise(impl[cn.cid])
+            res["evaluations"] += 1
+            f = specmon.mon_C11_pair(c, jp, jn)
+            if f:
+                res["violations"].append({"case": c, "impl": None, "what": "; ".join(f[:3])})
+        # the two-step link itself, executed on linkable samples
+        from . import ldcorr
+        lc = [run.Case(c.cid, c.doc, c.opts, c.emit_version, True, False) for c in
+              link_cases("C11", seed, 60 if tier == "quick" else 1500)]
+        lc = [c for c in lc if isinstance(c.doc.get("settings"), dict) and
+              c.doc["settings"].get("partial_build_segments_folder") and not c.doc["settings"].get("single_segment_mode")]
+        ln = [run.Case(c.cid + "_n", c.doc, c.opts, c.emit_version, False, False) for c in lc]
+        impl2 = run.run_impl_only(lc + ln)
+        from concurrent.futures import ThreadPoolExecutor
+        def job(pair):
+            c, cn = pair
+            try:
+                return ldcorr.two_step(c, run.normalise(impl2[cn.cid]), run.normalise(impl2[c.cid]), seed + 5)
+            except Exception as e:
+                return "skip:error", []
+        with ThreadPoolExecutor(max_workers=16) as ex:
+            outs = list(ex.map(job, list(zip(lc, ln))))
+        for (c, cn), (status, fl) in zip(zip(lc, ln), outs):
+            res["features"]["two-step:" + status] = res["features"].get("two-step:" + status, 0) + 1
+            res["evaluations"] += 1
+            if status == "fail":
+                res["violations"].append({"case": c, "impl": None, "what": "two-step link: " + "; ".join(fl)})
+    if pid == "C15":
+        # the same cases in fresh processes (fresh SipHash keys) and with the option order permuted
+        import random
+        sub = [c for c in cases if c.raw_yaml is None][: (400 if tier == "quick" else 6000)]
+        runs = [run.run_impl_only(sub) for _ in range(3 if tier == "quick" else 6)]
+        perm = []
+        for c in sub:
+            last = {}
+            for k, v in c.opts:
+                last[k] = v
+            items = list(last.items())
+            random.Random(seed + len(items)).shuffle(items)
+            perm.append(run.Case(c.cid, c.doc, items, c.emit_version, c.partial, c.files))
+        runs.append(run.run_impl_only(perm))
+        for c in sub:
+            outs = [json.dumps(run.normalise(r[c.cid]), sort_keys=True) for r in runs]
+            res["evaluations"] += 1
+            if len(set(outs)) > 1:
+                res["violations"].append({"case": c, "impl": None,
+                                          "what": "outputs differ between process runs / option orders (%d distinct results in %d runs)"
+                                                  % (len(set(outs)), len(outs))})
+        res["features"]["process-runs"] = len(runs)
+    if pid == "C19":
+        hostile = hostile_cases(seed, 600 if tier == "quick" else 20000)
+        impl = run.run_impl_only(hostile)
+        for c in hostile:
+            ji = impl[c.cid]
+            res["evaluations"] += 1
+            k = "hostile:" + c.meta["kind"]
+            res["features"][k] = res["features"].get(k, 0) + 1
+            if run.is_crash(ji):
+                res["violations"].append({"case": c, "impl": ji, "what": "the library crashed: %s" % json.dumps(ji)[:300]})
+    if pid == "C20":
+        from . import climon
+        r = climon.run(cases, tier, seed)
+        res["violations"].extend(r["violations"])
+        res["features"].update(r["features"])
+        res["evaluations"] += r["evaluations"]
+    if pid == "C16":
+        spec = run.run_valid_spec([c for c in cases if c.raw_yaml is None])
+        if spec is None:
+            res["proof_broken"] = "the extracted specification checker (coq/Spec/C16.v) could not be built"
+        else:
+            impl = run.run_impl_only([c for c in cases if c.cid in spec])
+            for c in cases:
+                if c.cid not in spec:
+                    continue
+                ji = impl[c.cid]
+                accepted = props.outcome(ji)[0] not in ("parse", "crash")
+                v = spec[c.cid]
+                res["evaluations"] += 1
+                key = "valid:%s accepted:%s%s" % (v["valid"], accepted, " known-class" if v["known"] else "")
+                res["features"][key] = res["features"].get(key, 0) + 1
+                if v["known"]:
+                    continue
+                if accepted != v["valid"]:
+                    res["violations"].append({"case": c, "impl": None,
+                                              "what": "the document is %s by the documented rules (Spec/C16.v valid) but slinky %s it (%s)"
+                                                      % ("valid" if v["valid"] else "invalid",
+                                                         "accepts" if accepted else "rejects", props.outcome(ji))})
     if pid in LINK_PIDS:
         from . import ldcorr, linkmon
         lc = link_cases(pid, seed, LINK_CASES.get(tier, 70))
@@ -103,7 +469,9 @@ def dynamic(pid, tier, seed, cases):
             res["features"]["link:" + v] = res["features"].get("link:" + v, 0) + 1
             res["evaluations"] += 1
             c = r["job"]["case"]
-            if r["real"].get("status") == "ok":
+            if r["real"].get("status") == "ok" and v == "equal":
+                # (only where LdSem and ld agree: in the skipped cases ld itself behaves irregularly, e.g. an
+                #  output section that receives nothing keeps the old location counter for the next symbol)
                 f = linkmon.monitors(c, run.normalise(impl[c.cid]), r["job"], r["real"], r["model"])
                 if pid in f:
                     res["violations"].append({"case": c, "impl": None, "what": "real GNU ld image: " + "; ".join(f[pid][:4]),
@@ -124,8 +492,48 @@ def dynamic(pid, tier, seed, cases):
     return res
 
 
+def _witness(k):
+    j = json.load(open(os.path.join(os.path.dirname(os.path.dirname(os.path.abspath(__file__))), k["witness"])))
+    c = run.Case.from_json(j)
+    impl, model = run.run_cases([c])
+    return c, run.normalise(impl[c.cid])
+
+
+def _witness_link(c, ji):
+    from . import ldcorr
+    why, job = ldcorr.prepare(c, ji, 1)
+    if why:
+        return None, None
+    return job, ldcorr.real_link(job)
+
+
 def replay_known(pid, k):
-    return True
+    """run the finding's witness on the real code (and the real linker): does it still fail?"""
+    try:
+        c, ji = _witness(k)
+        kid = k["id"]
+        if kid == "KF-C16-null-plain-string":
+            return props.outcome(ji)[0] != "parse"
+        if props.outcome(ji)[0] != "ok":
+            return False
+        text = ji["gen"]["ok"]["main"]["script"]
+        if kid == "KF-C06-single-segment":
+            return "a.o(" in text
+        if kid == "KF-C01-dest-missing":
+            return "(.data" not in text
+        if kid == "KF-C01-dup-list":
+            return text.count("a.o(.text*);") == 2
+        job, real = _witness_link(c, ji)
+        if real is None:
+            return False
+        if kid == "KF-C05-alloc-start":
+            s = real.get("syms", {})
+            return real["status"] == "ok" and s.get("b_alloc_VRAM", 0) > s.get("b_alloc_VRAM_END", 0)
+        if kid == "KF-C10-follows-unemitted":
+            return real["status"] == "ld-fail" and "clsA_VRAM_CLASS_END" in real["log"]
+    except Exception as e:
+        return False
+    return False
 
 
 from . import specmon
